@@ -390,8 +390,9 @@ impl Neg for NtpDuration {
     type Output = NtpDuration;
 
     fn neg(self) -> Self::Output {
+        // Saturate like the other duration operators: -i64::MIN does not exist
         NtpDuration {
-            duration: -self.duration,
+            duration: self.duration.saturating_neg(),
         }
     }
 }
